@@ -45,9 +45,13 @@ def build_and_compare(d, M, T):
     built = d.get('built_atm')
     geo, mesh = GB.build(M, family, inp, d['convention'], d['atm'] if built is None else built, d['order'])
     if built is not None: geo.atmosphere_type = d['atm']
+    if d.get('rename'): GB.rename_columns(geo, dict((int(k), v) for k, v in d['rename'].items()))
     blockmap = GB.make_blockmap(geo) if d['use_map'] else {}
-    mesh2, surf = GB.configure(geo, mesh, d['angle'], atmvol, atmcon, surfaces, d.get('rot'), pivot, shift)
-    grid = T.t2grid().fromgeo(geo, blockmap)
+    mesh2, surf = GB.configure(geo, mesh, d['angle'], atmvol, atmcon, surfaces, d.get('rot'), pivot, shift,
+                               refresh=not d.get('raw_surface'))
+    mesh_b = GB.oracle_mesh(family, {k: num(v) for k, v in d['inputs_b'].items()}) if d.get('move') else None
+    grid, mesh2, surf = GB.edit_and_convert(M, T, geo, blockmap, mesh2, surf, bool(d.get('preconvert')), mesh_b,
+                                            [tuple(e) for e in (d.get('edits') or [])])
     ex = GO.Expected(GO.ConcreteOps(), mesh2, surf, d['atm'], d['order'], GO.perm_cos_sin(d['angle']), atmvol, atmcon)
     bad = []
     def S(ok, label, what):
